@@ -130,3 +130,19 @@ Definition exec_example_stmt : Prop :=
      = [:: [:: gz0; gz0]; [:: gz0; gz2]].
 Lemma exec_example : exec_example_stmt.
 Proof. by vm_compute. Qed.
+
+(* pseudo_inverse, RCM route, on the executable model: A = identity, so the
+   permuted system A' X' = Q' is solved by X' = Q'; after un-permuting, the
+   result is Q Q, whatever the permutation *)
+Local Open Scope Z_scope.
+Definition ex_rho : seq (seq GZ) := [:: [:: (1, 0); (2, -1)]; [:: (0, 3); (0, 0)]].
+Local Close Scope Z_scope.
+Definition ex_perm : seq nat := [:: 2; 0; 3; 1].
+Definition pinv_rcm_example_stmt : Prop :=
+  let Q := pinv_Q gz0 gz1 gzadd gzmul gzopp 2 (of_rows ex_rho) in
+  let Q' := perm_full ex_perm ex_perm Q in
+  tab_mx 4 4 (pinv_rcm_R gz0 gzadd gzmul 4 ex_perm Q' Q')
+  = tab_mx 4 4 (fmulmx gz0 gzadd gzmul 4 Q Q)
+  /\ tab_mx 4 4 (fmulmx gz0 gzadd gzmul 4 (perm_full ex_perm ex_perm (fid gz0 gz1)) Q') = tab_mx 4 4 Q'.
+Lemma pinv_rcm_example : pinv_rcm_example_stmt.
+Proof. by vm_compute. Qed.
